@@ -6,7 +6,7 @@ from .. import PKG
 from ..dte import Table
 from ..model import AnalysisError
 from ..paths import Enumerator
-from ..strshape import (segments, merge, Lit, Hole, Join, Unknown,
+from ..strshape import (TemplateInjection, segments, merge, Lit, Hole, Join, Unknown,
                         shape_text)
 from ..util import (U, is_const, method_call, kwarg, walk_no_nested,
                     returns_of, parent_map)
@@ -101,6 +101,14 @@ def check_sanitizer(ctx):
                 return lines_source(d, depth - 1)
             return False
         if isinstance(e, ast.Call) and method_call(e, 'splitlines'):
+            return True
+        if isinstance(e, ast.Call) and prog.resolve(
+                f.module, e.func) == 'ext:textwrap.wrap' and not any(
+                    k.arg in ('replace_whitespace', 'initial_indent',
+                              'subsequent_indent', 'placeholder', None)
+                    for k in e.keywords):
+            # the chunks of a wrapped text: white space (line breaks
+            # included) is replaced by blanks before the text is cut
             return True
         if isinstance(e, ast.Call) and isinstance(e.func, ast.Name) and \
                 e.func.id in ('list', 'tuple') and len(e.args) == 1:
@@ -353,6 +361,12 @@ def classify_source(expr_text, node):
                 k.arg == 'indent' for k in node.keywords):
         # a JSON scalar / flow sequence never contains a raw line break
         return 'SINGLE-LINE'
+    for n in ast.walk(node):
+        if isinstance(n, ast.Call) and U(n.func) in (
+                'yaml.safe_dump', 'yaml.dump') and not any(
+                    k.arg == 'width' for k in n.keywords):
+            # the YAML emitter folds a long scalar at 80 columns
+            return 'MULTI-LINE'
     callee_parts = set()
     for n in ast.walk(node):
         if isinstance(n, ast.Call):
@@ -450,6 +464,13 @@ class LineMachine:
                     self.prefix = None
                     self._rule_add(s)
                 else:
+                    if s.cls == 'UNKNOWN' and s.node is not None and any(
+                            isinstance(x, ast.Call)
+                            for x in ast.walk(s.node)):
+                        raise AnalysisError(
+                            'the sample holds the value of %s, a computed '
+                            'text whose line structure is not read'
+                            % s.source[:80])
                     self.problems.append(('multi-line-source-unsanitized',
                                           s.source))
                     self.line_start = False
@@ -541,10 +562,16 @@ def check_lines(ctx, fmt, sanitizer, sanitizer_ok):
     from ..dte import inline_helpers
     prog = ctx.prog
     true = ast.Constant(value=True)
+    from ..respell import respelling
+    # per-character re-spelling helpers are judged as such (the engine reads
+    # a faithful one as the identity; an unfaithful one is reported below)
+    respellers = {g.qual for g in prog.module(GEN).functions.values()
+                  if len(g.params) == 1 and respelling(prog, g) is not None}
     en = Enumerator(prog, fmt, env0={'include_help': true,
                                      'comment_rule': true},
                     inline=inline_helpers(prog, modules={GEN}, classes=False,
-                                          exclude={sanitizer.qual}),
+                                          exclude={sanitizer.qual}
+                                          | respellers),
                     handler_paths=False, max_depth=4)
     paths = en.run()
     F = ctx.where(fmt.module, fmt.node).split(':')[0]
@@ -562,7 +589,25 @@ def check_lines(ctx, fmt, sanitizer, sanitizer_ok):
         if isinstance(e, (ast.Attribute, ast.Subscript)):
             ex = en.expand(e)
             return [Hole(U(ex), classify_source(U(ex), ex), ex)]
+        if isinstance(e, ast.Call) and len(e.args) == 1 and not e.keywords:
+            # a value re-spelled on its way out (the engine reads f(x) as x
+            # for a faithful re-spelling, so what arrives here is not one)
+            q = prog.resolve(fmt.module, e.func)
+            g = prog.functions.get(q) if q else None
+            if g is not None and g.qual != sanitizer.qual:
+                from ..respell import respelling, json_alphabet
+                r = respelling(prog, g, json_alphabet(e.args[0]))
+                if r is None:
+                    raise AnalysisError(
+                        'a value of the sample is written through %s, which '
+                        'is not one of the per-character re-spelling forms '
+                        'read (respell.py)' % g.qual)
+                if r[0] == 'bad':
+                    respell_bad.setdefault(g.qual, (e, r[1]))
+                return segments(e.args[0], hook)
         return None
+    respell_bad = {}
+    injected = {}
     cur = {'path': None}
 
     def deref(nm):
@@ -599,6 +644,9 @@ def check_lines(ctx, fmt, sanitizer, sanitizer_ok):
         n += 1
         try:
             segs = merge(segments(p.outcome.expr, hook))
+        except TemplateInjection as e:
+            injected.setdefault(str(e), p)
+            continue
         except Unknown as e:
             raise AnalysisError('output of the YAML formatter not '
                                 'recognised: %s' % e)
@@ -656,14 +704,25 @@ def check_lines(ctx, fmt, sanitizer, sanitizer_ok):
                'every line of every possible sample section starts with # '
                '(or is empty); free text occurs only through the comment '
                'formatter; names and check strings only on comment lines')
+    for why, p in sorted(injected.items())[:3]:
+        ctx.ob('C17.RULE-LINE', False, '%s:%d' % (F, p.outcome.line),
+               fmt.qual, 'sample text used as a format template',
+               'the rule line is not the name and check string of the '
+               'default: ' + why)
+    for q, (e, why) in sorted(respell_bad.items()):
+        ctx.ob('C17.RULE-LINE', False, ctx.where(fmt.module, e), fmt.qual,
+               'value re-spelled by %s' % q.split('.')[-1],
+               'the rule line does not read back as the default: ' + why)
     ok_rule = bad_rule is None and n_rule > 0
-    ctx.ob('C17.RULE-LINE', ok_rule, '%s:%d' % (
-        F, bad_rule[0].outcome.line) if bad_rule else ctx.where(
-            fmt.module, fmt.node), fmt.qual,
-        'commented rule line (%d occurrences)' % n_rule,
-        'maps the policy name to its default check string' if ok_rule else
-        'the rule line is not `"name": "check_str"` of the default (shape '
-        '%s)' % (bad_rule[1] if bad_rule else 'no rule line found'))
+    if not (injected and n_rule == 0):
+        ctx.ob('C17.RULE-LINE', ok_rule, '%s:%d' % (
+            F, bad_rule[0].outcome.line) if bad_rule else ctx.where(
+                fmt.module, fmt.node), fmt.qual,
+            'commented rule line (%d occurrences)' % n_rule,
+            'maps the policy name to its default check string' if ok_rule
+            else 'the rule line is not `"name": "check_str"` of the default '
+            '(shape %s)' % (bad_rule[1] if bad_rule
+                            else 'no rule line found'))
     for sh in list(shapes)[:6]:
         ctx.sample('shape: ' + sh[:300].replace('\n', '\\n'))
     ctx.floor('C17.LINES', n, 8, 'formatter paths')
@@ -750,6 +809,38 @@ def check_json(ctx):
                 ok = True
         except Unknown:
             ok = False
+    # a JSON scalar re-spelled on the way out must stay JSON: the only
+    # escape JSON has for a code point is \\uXXXX
+    from ..respell import respelling, json_alphabet, show
+    seen, work = set(), [fj]
+    while work:
+        g = work.pop()
+        if g.qual in seen or len(seen) > 40:
+            continue
+        seen.add(g.qual)
+        for c in ast.walk(g.node):
+            if not isinstance(c, ast.Call):
+                continue
+            h = prog.callee_of(g, c)
+            if h is None or h.module.name != GEN:
+                continue
+            if len(c.args) == 1 and not c.keywords:
+                r = respelling(prog, h, json_alphabet(c.args[0]))
+                if r is not None and r[0] == 'yes':
+                    for tmpl, cond in r[2]:
+                        if not tmpl.startswith('\\u'):
+                            ok = False
+                            ctx.ob('C17.JSON', False, ctx.where(g.module, c),
+                                   fj.qual, 'JSON member re-spelled by %s'
+                                   % h.name, 'the characters %s are written '
+                                   'with the escape %s, which JSON does not '
+                                   'have: the JSON sample is not valid JSON'
+                                   % (show(cond), tmpl))
+                            break
+                    else:
+                        continue
+                    break
+            work.append(h)
     ctx.ob('C17.JSON', ok, ctx.where(fj.module, fj.node), fj.qual,
            'JSON member', 'a member `"name": <check_str as a JSON scalar>`'
            if ok else (
